@@ -1,5 +1,6 @@
 import Np.Proofs.Expr
 import Np.Proofs.Shape
+import Np.Proofs.PowArr
 /-! C01 — ring arithmetic on polynomial arrays is exact: property theorems (helpers live in Np/Proofs). -/
 namespace Np.Props.C01
 open MvPolynomial Shape
@@ -56,6 +57,21 @@ theorem expr_den (rc rn : Bool) (env : List (Arr R)) (henv : ∀ a ∈ env, a.WF
 theorem distributivity (f g h : MvPolynomial Name R) : (f + g) * h = f * h + g * h := add_mul f g h
 theorem commutativity (f g : MvPolynomial Name R) : f * g = g * f := mul_comm f g
 theorem associativity (f g h : MvPolynomial Name R) : f * g * h = f * (g * h) := mul_assoc f g h
+/-- **`**` with an array of exponents**: the result has numpy's broadcast shape, is well-formed, and every element is
+the broadcast base element raised to *its own* broadcast exponent (the behaviour repaired in D1) -/
+theorem array_pow_elementwise (rc rn : Bool) (a : Arr R) (kshape ks : List Nat) (r : Arr R) (ha : a.WF)
+    (h : Arr.powArr rc rn a kshape ks = .ok r) :
+    r.WF ∧ bshape a.shape kshape = some r.shape ∧
+      ∃ (σa : Fin (size r.shape) → Fin (size a.shape)) (σk : Fin (size r.shape) → Fin (size kshape)),
+        (∀ i, (σa i).val = bindex a.shape r.shape i.val) ∧ (∀ i, (σk i).val = bindex kshape r.shape i.val) ∧
+        ∀ i, r.elem i = a.elem (σa i) ^ (ks.getD (σk i).val 0) :=
+  Arr.powArr_spec rc rn a kshape ks r ha h
+
+/-- … and it always succeeds for broadcastable shapes without a zero-length axis -/
+theorem array_pow_succeeds (rc rn : Bool) (a : Arr R) (kshape ks : List Nat) (ha : a.WF)
+    (hsa : ∀ d ∈ a.shape, 0 < d) (hsk : ∀ d ∈ kshape, 0 < d) (s : List Nat) (hs : bshape a.shape kshape = some s) :
+    ∃ p, Arr.powArr rc rn a kshape ks = .ok ⟨s, p⟩ :=
+  Arr.powArr_total' rc rn a kshape ks ha hsa hsk s hs
 end arrays
 
 /-! ### broadcasting is numpy's and never leaves the model's domain -/
